@@ -14,7 +14,7 @@ LEVEL = "exploration"
 RULE = ("E1/E2: ('table', t) every entry of S, Si, T1-T8, U1-U4, rcon against the GF(2^8) definitions; ('key1', size, pos) / ('blk1', size, pos) "
         "all 256 values of one active key / block byte at every position for 128/192/256-bit keys, encrypt + decrypt + inversion vs the "
         "reference cipher; ('kat', i) FIPS-197 vectors and seed keys; ('mode', ...) ECB, CBC, CFB(1,8,16), OFB, CTR vs reference modes for "
-        "every length 1..64 (block modes: multiples of 16) x IV {none, zero, seed}, CTR start values carrying across every byte boundary (2^(8j)-1, 2^(8j)-2 for j = 1..16) incl. wrap-around; "
+        "every length 1..64 (block modes: multiples of 16) x IV {none, zero, seed}, CTR start values carrying across every byte boundary (2^(8j)-1, 2^(8j)-2 for j = 1..16) incl. wrap-around; ('ctrshare', segments, tail, start) one caller-owned Counter handed through up to 4 successive CTR objects at block-aligned cuts incl. empty calls; "
         "('feed', mode, dir, padding, L, k) ALL ways to cut an input of length L at <= k points (empty feeds included) through Encrypter/"
         "Decrypter; ('stream', mode, L, block size) encrypt_stream / decrypt_stream around their 8 KiB block size; ('adapter', L, iv, key) create_AES128 encrypt/decrypt/mac for every length 1..96 and around 1 KiB / 4 KiB / 64 KiB; ('hist', ops) every sequence of <= d "
         "operations over 3 adapter objects x {enc d1, enc d2, dec x, mac d1}, each result compared with a fresh object; ('pad', n). "
@@ -121,6 +121,14 @@ def cases(ctx):
     for si in range(len(CTR_STARTS)):
         for L in (1, 16, 17, 33, 48, 64):
             yield ("ctr", si, L)
+    # one caller-owned Counter object handed from one CTR object to the next at block-aligned cuts (incl. empty calls): the
+    # stream must continue as the standard one - a mode object may consume exactly the counter values it used
+    from itertools import product as _prodc
+    for n in (1, 2, 3):
+        for segs in _prodc((0, 16, 32), repeat=n):
+            for tail in (5, 16):
+                for si in (0, 2, 3):
+                    yield ("ctrshare", segs, tail, si)
     for m in MODES:
         for direction in ("enc", "dec"):
             for padding in ("default", "none"):
@@ -320,6 +328,22 @@ def run_case(ctx, case):
                 o.viol("mode|counter-increment", "Counter(%#x) after %d increments is %s" % (start, k, bytes(c.value).hex()))
                 break
             c.increment()
+        return o
+    if kind == "ctrshare":
+        _, segs, tail, si = case
+        start = CTR_STARTS[si]
+        key = ctx.sym("c16-ctrkey", 16)
+        lens = list(segs) + [tail]
+        data = ctx.sym("c16-ctrshare", sum(lens))
+        counter = paes.Counter(start)
+        out = b""
+        pos = 0
+        for j, ln in enumerate(lens):
+            obj = paes.AESModeOfOperationCTR(key, counter)
+            out += (obj.encrypt if j % 2 == 0 else obj.decrypt)(data[pos:pos + ln])
+            pos += ln
+        if out != A.ctr_crypt(key, data, start):
+            o.viol("mode|ctr-shared-counter", "CTR stream handed from object to object on one Counter at block-aligned cuts %r differs from the standard stream" % (lens,))
         return o
     if kind == "feed":
         _, m, direction, padding, L, k = case
